@@ -205,7 +205,7 @@ where
 
         let ab_base2k: usize = a.base2k().as_usize();
         assert_eq!(b.base2k().as_usize(), ab_base2k);
-        assert_eq!(a_effective_k.div_ceil(ab_base2k), a.size());
+        let a = &glwe_effective_prefix(a, a_effective_k);
         assert_eq!(b_effective_k.div_ceil(ab_base2k), b.size());
         let res_base2k: usize = res.base2k().as_usize();
 
@@ -269,18 +269,24 @@ where
 
         let ab_base2k: usize = a.base2k().as_usize();
         assert_eq!(res.base2k().as_usize(), ab_base2k);
-        assert_eq!(res_effective_k.div_ceil(ab_base2k), res.size());
+        let res_in_size: usize = res_effective_k.div_ceil(ab_base2k);
+        assert!(res_in_size <= res.size());
         assert_eq!(a_effective_k.div_ceil(ab_base2k), a.size());
 
         let cols: usize = res.rank().as_usize() + 1;
 
-        let (mut res_prep, scratch_1) = scratch.take_cnv_pvec_left(self, cols, res.size());
+        let (mut res_prep, scratch_1) = scratch.take_cnv_pvec_left(self, cols, res_in_size);
         let (mut a_prep, scratch_2) = scratch_1.take_cnv_pvec_right(self, 1, a.size());
 
         let mask_res = msb_mask_bottom_limb(ab_base2k, res_effective_k);
         let mask_a = msb_mask_bottom_limb(ab_base2k, a_effective_k);
 
-        self.cnv_prepare_left(&mut res_prep, res.data(), mask_res, scratch_2);
+        self.cnv_prepare_left(
+            &mut res_prep,
+            glwe_effective_prefix(res, res_effective_k).data(),
+            mask_res,
+            scratch_2,
+        );
         self.cnv_prepare_right(&mut a_prep, a.data(), mask_a, scratch_2);
 
         let (cnv_offset_hi, cnv_offset_lo) = if cnv_offset < ab_base2k {
@@ -289,7 +295,7 @@ where
             ((cnv_offset / ab_base2k).saturating_sub(1), (cnv_offset % ab_base2k) as i64)
         };
 
-        let res_dft_size = a.size() + res.size() - cnv_offset_hi;
+        let res_dft_size = a.size() + res_in_size - cnv_offset_hi;
 
         for i in 0..cols {
             let (mut res_dft, scratch_3) = scratch_2.take_vec_znx_dft(self, 1, res_dft_size);
@@ -629,7 +635,7 @@ where
 
         let a_base2k: usize = a.base2k().as_usize();
 
-        assert_eq!(a_effective_k.div_ceil(a_base2k), a.size());
+        let a = &glwe_effective_prefix(a, a_effective_k);
 
         let res_base2k: usize = res.base2k().as_usize();
         let cols: usize = res.rank().as_usize() + 1;
@@ -719,8 +725,8 @@ where
 
         let ab_base2k: usize = a.base2k().as_usize();
         assert_eq!(b.base2k().as_usize(), ab_base2k);
-        assert_eq!(a_effective_k.div_ceil(ab_base2k), a.size());
-        assert_eq!(b_effective_k.div_ceil(ab_base2k), b.size());
+        let a = &glwe_effective_prefix(a, a_effective_k);
+        let b = &glwe_effective_prefix(b, b_effective_k);
 
         let res_base2k: usize = res.base2k().as_usize();
 
@@ -840,8 +846,8 @@ where
 
         let ab_base2k: usize = a.base2k().as_usize();
         assert_eq!(b.base2k().as_usize(), ab_base2k);
-        assert_eq!(a_effective_k.div_ceil(ab_base2k), a.size());
-        assert_eq!(b_effective_k.div_ceil(ab_base2k), b.size());
+        let a = &glwe_effective_prefix(a, a_effective_k);
+        let b = &glwe_effective_prefix(b, b_effective_k);
 
         let res_base2k: usize = res.base2k().as_usize();
         let cols: usize = res.rank().as_usize() + 1;
@@ -915,6 +921,20 @@ where
             }
         }
     }
+}
+
+/// Read-only view of `a` restricted to the `ceil(effective_k / base2k)` limbs its precision needs
+/// (limbs below the effective precision carry no information and must not enter a convolution).
+fn glwe_effective_prefix<D: DataRef>(a: &GLWE<D>, effective_k: usize) -> GLWE<&[u8]> {
+    let size: usize = effective_k.div_ceil(a.base2k().as_usize());
+    assert!(
+        size <= a.size(),
+        "effective_k: {effective_k} needs {size} limbs > a.size(): {}",
+        a.size()
+    );
+    let mut view: GLWE<&[u8]> = a.to_ref();
+    view.data.size = size;
+    view
 }
 
 #[inline]
